@@ -5,7 +5,7 @@ from models import refinterp, refscan
 
 ID = "C03"
 RULE = (
-    "case = (ordered pair (thorough: triple) of writer components from a 30-component alphabet - assignments with and without tracking "
+    "case = (ordered pair (thorough: triple) of writer components from a 31-component alphabet - assignments with and without tracking "
     "keys, from headers, other variables and arithmetic on the previous value, tally/sum/subtotal/counter/first/count(value) with name "
     "qualifiers and onmatch, push/push.distinct/pop/peek/peek_size, count()/count_lines()/count_scans()/line_number() - with a filter "
     "component in no/first/last position; file of <=3 records; scan window); the real run is compared with models/refinterp.py on the "
@@ -14,7 +14,7 @@ RULE = (
     ">=2 variables written and at least one line rejected; state = (variables, counters, record)"
 )
 BOUNDS = {
-    "quick": "870 ordered pairs x {no filter, filter first, filter last} x 16 files x window *; pairs x 6 files x windows {1*, 1-2}",
+    "quick": "930 ordered pairs x {no filter, filter first, filter last} x 18 files x window *; pairs x 6 files x windows {1*, 1-2}",
     "thorough": "pairs x 3 filters x 3 positions x all 259 files of <=3 records x 3 windows; triples over a 12-writer subset x 20 files",
 }
 CHUNK = 60
@@ -66,6 +66,7 @@ WRITERS = [
     ["=", ["v", "x"], ["onmatch"], H1],
     ["->", ["==", H0, T("1")], ["=", ["v", "w"], [], H1]],
     ["->", ["==", H0, T("1")], ["=", ["v", "p2"], [], fn("pop", [], [T("s")])]],
+    ["->", ["==", H1, T("9")], ["=", ["v", "p3"], [], fn("pop", [], [T("s")])]],
 ]
 def written_var(w):
     """name of the (named) variable a writer component maintains, or None."""
@@ -91,8 +92,8 @@ def written_var(w):
 XON = next(i for i, w in enumerate(WRITERS) if w[0] == "=" and w[1][1] == "x" and "onmatch" in w[2])
 FILTERS = [["==", H0, T("1")], fn("no"), ["==", H1, T("2")]]
 PRINT = fn("print", [], [T("$.csvpath.count_scans $.csvpath.line_number ")])
-ROWS = {"p": ["1", "2"], "q": ["2", "1"], "r": ["10", "9"], "e": ["", "x"], "s": ["abc"], "b": None}
-FILES_Q = ["p", "pq", "qp", "pp", "pqr", "rqp", "ppq", "pqp", "pbq", "prp", "qrq", "pqb", "ppp", "bpq", "qqp", "qrp"]
+ROWS = {"p": ["1", "2"], "q": ["2", "1"], "r": ["10", "9"], "e": ["", "x"], "s": ["abc"], "b": None, "t": ["1", "9"]}
+FILES_Q = ["p", "pq", "qp", "pp", "pqr", "rqp", "ppq", "pqp", "pbq", "prp", "qrq", "pqb", "ppp", "bpq", "qqp", "qrp", "pqt", "qpt"]
 FILES_W = ["pqr", "rqp", "ppq", "pbq", "pqpq", "qprp"]
 
 
